@@ -5,6 +5,7 @@ CONSTANTS
   CheckPeriod = 5
   SendsPerSec = 15
   Slack = 1
+  MaxFlight = 0
   D = 0
 INIT InitConverged
 NEXT NextFlood
